@@ -28,14 +28,40 @@ def expectedIndex : List (String × List String) :=
    ("SynapticConnection", ["_get_cell_id"]),
    ("Population", ["get_size"])]
 
+/-- the zero-argument accessors each class is expected to have, as an enumeration (`expectedIndex` spells the same
+    table with the Python names: `expectedIndex_eq`) -/
+def expectedMeths : Cls → List Meth
+  | .Connection | .ElectricalConnection | .ElectricalConnectionInstance | .ContinuousConnection
+  | .ContinuousConnectionInstance =>
+    [.get_pre_cell_id, .get_post_cell_id, .get_pre_segment_id, .get_post_segment_id, .get_pre_fraction_along,
+     .get_post_fraction_along]
+  | .ConnectionWD =>
+    [.get_pre_cell_id, .get_post_cell_id, .get_pre_segment_id, .get_post_segment_id, .get_pre_fraction_along,
+     .get_post_fraction_along, .get_delay_in_ms]
+  | .ElectricalConnectionInstanceW | .ContinuousConnectionInstanceW =>
+    [.get_pre_cell_id, .get_post_cell_id, .get_pre_segment_id, .get_post_segment_id, .get_pre_fraction_along,
+     .get_post_fraction_along, .get_weight]
+  | .Input | .ExplicitInput => [.get_target_cell_id, .get_segment_id, .get_fraction_along]
+  | .InputW => [.get_weight, .get_target_cell_id, .get_segment_id, .get_fraction_along]
+  | .SynapticConnection => []
+  | .Population => [.get_size]
+
+def expectedHasCellId : Cls → Bool
+  | .Population => false
+  | _ => true
+
+theorem expectedIndex_eq :
+    expectedIndex = Cls.all.map (fun c =>
+      (c.name, (if expectedHasCellId c then ["_get_cell_id"] else []) ++ (expectedMeths c).map Meth.name)) := by
+  decide
+
 /-- the class table of the hand model has an accessor exactly for the expected methods: nothing the translator
     finds in the source is left without a counterpart, and the model has no accessor the source lacks -/
 theorem accessor_domain {F : Type} (c : Cls) (m : Meth) :
-    (Cls.accessor (F := F) c m).isSome = ((expectedIndex.lookup c.name).getD []).contains m.name := by
+    (Cls.accessor (F := F) c m).isSome = (expectedMeths c).contains m := by
   cases c <;> cases m <;> rfl
 
-theorem cellIdFn_domain {F : Type} (c : Cls) :
-    (Cls.cellIdFn (F := F) c).isSome = ((expectedIndex.lookup c.name).getD []).contains "_get_cell_id" := by
+theorem cellIdFn_domain {F : Type} (c : Cls) : (Cls.cellIdFn (F := F) c).isSome = expectedHasCellId c := by
   cases c <;> rfl
 
 /-! ## `helper_methods.py` -/
